@@ -203,7 +203,8 @@ def execute(cell) -> Outcome:
     ref = eager.value if eager.ok else None
     for m, r in results.items():
         if r.ok and ref is not None and not same(r.value, ref):
-            out.add(("wrong-answer", f"method={m}", f"reindex={cell['reindex']}"), f"method={m}: value {r.value[0].tolist()} (groups {[g.tolist() for g in r.value[1]]}) != eager "
+            out.add(("wrong-answer", f"method={m}", f"reindex={cell['reindex']}", "engine=numba" if cell["engine"] == "numba" else "engine=other", func_class(func)),
+                    f"method={m}: value {r.value[0].tolist()} (groups {[g.tolist() for g in r.value[1]]}) != eager "
                     f"{ref[0].tolist()} (groups {[g.tolist() for g in ref[1]]}) cell={desc}")  # fmt: skip
     mr = results["map-reduce"]
     auto = results[None]
@@ -227,4 +228,6 @@ def func_class(func):
         return "firstlast"
     if func in ("median", "nanmedian", "quantile", "nanquantile"):
         return "order-stat"
+    if func in ("max", "min", "nanmax", "nanmin"):
+        return "minmax"
     return "other"
